@@ -8,6 +8,8 @@ package harness
 // block filter region spans several 4 MiB chunks.
 
 import (
+	"github.com/klauspost/compress/snappy"
+	"github.com/klauspost/compress/zstd"
 	"bytes"
 	"context"
 	"encoding/binary"
@@ -37,6 +39,10 @@ type ExtOpt struct {
 	// row data (covered by the block's hash and sizes): the block verifies, its
 	// rows scan, and the scan then fails on a truncated length prefix
 	BadTail int `json:"badtail,omitempty"`
+	// Comp: row data compression of the external file ("" / "none" = stored,
+	// "snappy" = snappy stream format, "zstd"): an external writer is free to
+	// compress, with or without a row data hash
+	Comp string `json:"comp,omitempty"`
 }
 
 var crcTable = crc32.MakeTable(crc32.Castagnoli)
@@ -216,16 +222,37 @@ func writeExternalFile(w *World, cfg EngCfg, cfgIdx int, st Step, nextID *int) (
 		if opt.BadTail > 0 && len(meta.DataBlocks) == 0 {
 			data.Write(bytes.Repeat([]byte{0xff}, opt.BadTail))
 		}
+		rawLen := data.Len()
+		compKind := bs.CompressionNone
+		switch opt.Comp {
+		case "snappy":
+			var cb bytes.Buffer
+			sw := snappy.NewBufferedWriter(&cb)
+			sw.Write(data.Bytes())
+			sw.Close()
+			data = cb
+			compKind = bs.CompressionSnappy
+		case "zstd":
+			var cb bytes.Buffer
+			zw, err := zstd.NewWriter(&cb, zstd.WithEncoderConcurrency(1))
+			if err != nil {
+				return nil, err
+			}
+			zw.Write(data.Bytes())
+			zw.Close()
+			data = cb
+			compKind = bs.CompressionZstd
+		}
 		bm := bs.DataBlockMetadata{
 			RowDataOffset: offset, RowDataSize: data.Len(), Rows: len(b.rows),
-			PartitionID: opt.Part, Compression: bs.CompressionNone, UncompressedSize: data.Len(),
+			PartitionID: opt.Part, Compression: compKind, UncompressedSize: rawLen,
 			BloomFalsePositiveRate: cfg.FPR,
 			BloomEntryCounts:       bs.BloomEntryCounts{Fields: len(es.fields), Tokens: len(es.tokens), FieldTokens: len(es.fts)},
 		}
 		if len(mm) > 0 {
 			bm.MinMaxIndexes = mm
 		}
-		if opt.EmptyComp {
+		if opt.EmptyComp && compKind == bs.CompressionNone {
 			bm.Compression = ""
 		}
 		if !opt.NoHash {
